@@ -20,6 +20,10 @@ func (p *BinaryProtocol) SkipBytesType() (int, error) {
 	if n < 0 {
 		return n, errDecodeField
 	}
+	if v > uint64(len(p.Buf)-p.Read-n) {
+		// also covers lengths >= 2^63, which made `all` negative and next() panic ("invalid size")
+		return 0, errDecodeField
+	}
 	all := int(v) + n
 	_, err := p.next(all)
 	return all, err
